@@ -83,7 +83,7 @@ static void ev_ijnbhd(H3Index o, int k) {
 static void ev_path(H3Index a, H3Index b) {
     int64_t n = 0, d = -7; H3Error rs = gridPathCellsSize(a, b, &n), rd = gridDistance(a, b, &d);
     if (rs) n = 0;
-    if (n > 3000) return;
+    if (n > 20000) return;
     H3Index *o = gb_alloc(n + PAD, sizeof(H3Index), 0);
     for (int64_t i = 0; i < n + PAD; i++) o[i] = VT_SENTINEL;
     H3Error r = rs ? rs : gridPathCells(a, b, o);
@@ -184,6 +184,12 @@ int main(int argc, char **argv) {
                 if (res >= 5 && i % (quick ? 40 : 8) == 0) ev_path(a, straight(a, 60 + (int)vt_randn(100)));
             }
             cv_free(&cv);
+        }
+        /* very long lines at fine resolutions (thousands of cells): local coordinates times distance approach 2^31 */
+        for (int t = 0; t < (quick ? 3 : 12); t++) {
+            int res = 13 + (t % 3); H3Index a = vt_random_cell(res);
+            H3Index b = straight(a, (quick ? 900 : 1200) + (int)vt_randn(quick ? 600 : 3500));
+            ev_path(a, b);
         }
     } else return 2;
     vt_close();
